@@ -17,7 +17,7 @@ from .common import Check
 
 
 def mine(clause: str) -> bool:
-    return "-raised-" in clause or ("-error-" in clause and not clause.endswith("-position"))
+    return "-raised-" in clause or ("-error-" in clause and not clause.endswith(("-position", "-context")))
 
 
 def judge(rec, opts):
